@@ -127,12 +127,22 @@ func opsTok(l []op) string {
 	return strings.Join(s, ";")
 }
 
+// tracing: the Consensus of the current case runs with Tracing enabled (LogOps carry a span context
+// and a tag map). Derived from the case itself so that a replay makes the same choice.
+var tracing bool
+
+func tracingFor(ops []op) bool { return len(ops)%2 == 1 }
+
 func (o op) encode() []byte {
 	t := raft.LogOpType(raft.LogOpUnpin)
 	if o.pin {
 		t = raft.LogOpPin
 	}
-	b, err := raft.VerifEncodeOp(common.PinOf(o.tok), t)
+	enc := raft.VerifEncodeOp
+	if tracing {
+		enc = raft.VerifEncodeTracedOp
+	}
+	b, err := enc(common.PinOf(o.tok), t)
 	if err != nil {
 		panic(err)
 	}
@@ -178,6 +188,7 @@ type replica struct {
 func raftCfg() *raft.Config {
 	cfg := &raft.Config{}
 	cfg.Default()
+	cfg.Tracing = tracing
 	return cfg
 }
 
@@ -423,6 +434,7 @@ func (w *world) exec(tok string) (obs string, ok bool) {
 }
 
 func runFSMCase(out *common.Out, n int, ops []op, events []string) {
+	tracing = tracingFor(ops)
 	w := newWorld(n, ops)
 	obs := make([]string, 0, len(events))
 	for _, e := range events {
@@ -445,6 +457,7 @@ func main() {
 	out := common.NewOut()
 	defer out.Flush()
 	if dir := a.Extra["child"]; dir != "" {
+		tracing = a.Extra["tracing"] == "1"
 		childMain(dir)
 		return
 	}
